@@ -469,6 +469,27 @@ def main(argv: List[str]) -> int:
                 if eq:
                     return {"observed": f"documents differing in {'.'.join(map(str, path))}.{f} load to models that compare equal", "edited_path": list(path), "field": f, "old": node.get(f), "new": n2.get(f)}
                 break
+        # the ORDER of a list is part of the structure ("every declaration, property, type expression ... in order"): the same entries in
+        # reversed order are a structurally different document (added after seed C18-16: order-insensitive `or` / `and` equality)
+        for f in structural:
+            done = 0
+            for path in paths[:400]:
+                node = at(doc, path)
+                v = node.get(f)
+                if not (isinstance(v, list) and len(v) >= 2 and strip_doc({"x": v}) != strip_doc({"x": v[::-1]})):
+                    continue
+                d2 = copy.deepcopy(doc)
+                at(d2, path)[f] = copy.deepcopy(v[::-1])
+                try:
+                    m2 = model.LSPModel(**d2)
+                    eq = model.LSPModel(**copy.deepcopy(doc)) == m2
+                except Exception as e:  # noqa
+                    return {"observed": f"loading / comparing a document with reversed {f} raises {type(e).__name__}: {e}", "edited_path": list(path), "field": f}
+                if eq:
+                    return {"observed": f"documents that differ only in the order of {'.'.join(map(str, path))}.{f} load to models that compare equal", "edited_path": list(path), "field": f, "old": v, "new": v[::-1]}
+                done += 1
+                if done >= 3:
+                    break
         # the same value under two different optional fields (everything else equal): which field carries it is part of the structure
         addable = [f for f in structural if f in ADDABLE]
         for f in addable:
@@ -655,6 +676,11 @@ def main(argv: List[str]) -> int:
     try:
         _js.validate(rep, rooted_schema)
         rbr = read_back(model.LSPModel(**copy.deepcopy(rep)))
+        try:
+            same = model.LSPModel(**copy.deepcopy(rep)) == model.LSPModel(**copy.deepcopy(rep))
+            tab(same, "eq:repeated-entries:reflexive", "two loads of a schema-valid document with repeated / anonymous-literal members in or / and / tuple items compare unequal", document=rep)
+        except Exception as e:  # noqa
+            tab(False, "eq:repeated-entries:reflexive", f"comparing two loads of a schema-valid document whose or / and / tuple items hold anonymous literals and repeated members raises {type(e).__name__}: {str(e)[:160]}", document=rep)
         tab(drop_empty_defaults(rbr) == drop_empty_defaults(rep), "load:read-back:repeated-entries", "a document with repeated (equal, or equal up to documentation) entries in or / and / tuple items, extends, mixins or a section does not read back as written", first_difference=_first_diff(drop_empty_defaults(rep), drop_empty_defaults(rbr)), document=rep)
     except _js.ValidationError as e:
         run.crash(f"repeated-entries document is not schema-valid: {str(e)[:200]}")
